@@ -17,11 +17,13 @@ MANIFEST = dict(
              "new among the live ones and within the width's range.  Every transition of the model's control skeleton is "
              "replayed into mpt_dispatch_*/mpt_command_* (C) and into the mpt++ dispatch class (C++) with one harness handler "
              "that logs (token, end-of-life?, ev->id, message?) and returns what the model chose; seeded histories over 20 ids "
-             "and hashed command texts (table growth past 8 and 16 slots) recorded from the real code are validated by TLC "
+             "and hashed command words over the whole byte alphabet (embedded NUL, bytes >= 128, quoted blanks, 127..255 "
+             "bytes, fragmented anywhere; table growth past 8 and 16 slots) recorded from the real code are validated by TLC "
              "against the same specification including its action properties.",
-        note="Trusted: TLC, drv/dispatch.c and drv/dispatch_cxx.cpp (projection only), bounded model.  The hash is specified "
-             "for bytes < 128 (djb2 on 16-bit limbs); separators that are not graphic characters (quoted/escaped argument "
-             "splitting) and handlers that change the table while they run are not modelled.",
+        note="Trusted: TLC, drv/dispatch.c and drv/dispatch_cxx.cpp (projection only), bounded model.  The command-text rule of "
+             "mpt_message_argv (white space, graphic and blank separators with quotes, NUL) and djb2 over all bytes (signed "
+             "char, 16-bit limbs) are specified; handlers that change the table while they run and the smdb hash are not "
+             "modelled.",
         technique="TLA+ spec + TLC exhaustive check; TLC-generated behaviours replayed into the C and C++ code; TLC trace validation of recorded runs",
         design="5/C11")
 CFG = {
@@ -137,7 +139,51 @@ def key_of(beh):
 # ---------------------------------------------------------------------------
 # binding B inputs: call sequences only, no expected values
 # ---------------------------------------------------------------------------
-TEXTS = ["go", "stop", "stop!", "a", "status", "set.value", "x1", "quit_now_please"]
+def _long(rng, n):
+    """n bytes that are no blank, quote, NUL or usual separator (so the whole word is one argument)."""
+    ok = [c for c in range(1, 256) if c not in (9, 10, 11, 12, 13, 32, 34, 39, 44, 47, 58, 92)]
+    return [rng.choice(ok) for _ in range(n)]
+
+
+def word_pool(rng):
+    """Command words over the whole byte alphabet: plain, embedded NUL, bytes >= 128, quoted blanks,
+    escaped quotes, form feed inside, and texts around the 128 byte staging buffer of mpt_dispatch_hash."""
+    fixed = [b"go", b"stop", b"stop!", b"a", b"a\0b", b"x\0\0y\xe9", b"\xc8\xff\x80", b"\x80", b"status\xff",
+             b'"a b"', b"'q\\' r'", b'k"\tz"w', b"k\x0cz", b"set.value", b"quit_now_please"]
+    pool = [list(w) for w in fixed]
+    for n in (127, 128, 129, rng.choice([130, 200, 255])):
+        pool.append(_long(rng, n))
+    w = _long(rng, 127)
+    w[rng.randrange(1, 126)] = 0                      # long word with an embedded NUL
+    pool.append(w)
+    return pool
+
+
+def hash_message(rng, words):
+    """One message for mpt_dispatch_hash: header bytes, payload, fragment cuts (input only, no expectation)."""
+    w = rng.choice(words + [[ord(c) for c in "nope"]])
+    junk = [rng.randrange(256) for _ in range(rng.randrange(6))]
+    lead = [rng.choice([32, 9, 10, 12, 13, 11]) for _ in range(rng.choice([0, 0, 1, 3]))]
+    form = rng.randrange(6)
+    if form == 0:                                     # command, graphic separator
+        free = [c for c in (58, 47, 44, 59, 33, 126) if c not in w] or [58]
+        sep = rng.choice(free)
+        arg = dict(cmd=4, sep=sep, payload=lead + w + ([sep] + junk if rng.random() < 0.7 else []))
+    elif form == 1:                                   # command, zero terminated
+        arg = dict(cmd=4, sep=0, payload=w + ([0] + junk if rng.random() < 0.7 else []))
+    elif form == 2:                                   # not a command message: argument byte ignored
+        arg = dict(cmd=rng.choice([0, 1, 5, 16, 255]), sep=rng.choice([0, 58, 32, 200]),
+                   payload=w + ([0] + junk if rng.random() < 0.5 else []))
+    elif form in (3, 4):                              # command, blank separated (any non-graphic argument byte)
+        sep = rng.choice([32, 32, 9, 10, 1, 127, 128, 200, 255])
+        arg = dict(cmd=4, sep=sep, payload=lead + w + ([rng.choice([32, 9, 10, 13, 11])] + junk if rng.random() < 0.8 else []))
+    else:                                             # arbitrary bytes
+        arg = dict(cmd=rng.choice([4, 4, 0]), sep=rng.randrange(256),
+                   payload=[rng.choice([0, 32, 34, 39, 92, 58, rng.randrange(256)]) for _ in range(rng.randrange(12))])
+    total = len(arg["payload"]) + 2
+    cuts = sorted(set(rng.randrange(0, total + 1) for _ in range(rng.choice([0, 1, 1, 2, 3]))))
+    arg["cuts"] = cuts
+    return arg
 
 
 def limbs(v):
@@ -154,7 +200,8 @@ def gen_histories(ck, n, steps, cxx=False):
         ids = [limbs(rng.choice([k + 1, k + 1, 200 + k, (1 << 32) + k, (1 << 63) + k])) for k in range(nid)]
         if rng.random() < 0.3:
             ids.append(limbs(0))        # id 0 can be registered like any other
-        texts = [[ord(ch) for ch in t] for t in rng.sample(TEXTS, rng.randrange(1, 5))]
+        pool = word_pool(rng)
+        texts = rng.sample(pool, rng.randrange(2, 7))
 
         def hr():
             return {"r": rng.choice([0, 0, 1, 1, 2, 3, 4, 5, 6, 7, -1, -2]), "clear": rng.choice([0, 0, 1])}
@@ -196,20 +243,7 @@ def gen_histories(ck, n, steps, cxx=False):
             elif op == "emitnone":
                 beh.append({"a": "emitnone", "arg": hr()})
             elif op == "hash":
-                t = rng.choice(texts + [[ord(c) for c in "nope"]])
-                form = rng.randrange(3)
-                junk = [rng.randrange(33, 127) for _ in range(rng.randrange(5))]
-                if form == 0:
-                    sep = rng.choice([58, 47, 44])
-                    t2 = [c for c in t if c != sep]
-                    pay = t2 + ([sep] + junk if rng.random() < 0.7 else [])
-                    arg = dict(cmd=4, sep=sep, payload=pay)
-                elif form == 1:
-                    arg = dict(cmd=4, sep=0, payload=t + ([0] + junk if rng.random() < 0.7 else []))
-                else:
-                    arg = dict(cmd=rng.choice([0, 5, 16]), sep=rng.choice([0, 58]),
-                               payload=t + ([0] + junk if rng.random() < 0.5 else []))
-                arg["split"] = rng.randrange(len(arg["payload"]) + 1)
+                arg = hash_message(rng, texts)
                 arg.update(hr())
                 beh.append({"a": "hash", "arg": arg})
         if cxx:
